@@ -7,6 +7,18 @@ import Geodesy.Model.Ops.Basic
 import Geodesy.Model.Ops.Helmert
 import Geodesy.Model.Ops.Adapt
 import Geodesy.Model.Ops.Merc
+import Geodesy.Model.Ops.Omerc
+import Geodesy.Model.Ops.Geodesic
+import Geodesy.Model.Ops.Latitude
+import Geodesy.Model.Ops.Curvature
+import Geodesy.Model.Ops.Gravity
+import Geodesy.Model.Ops.Iso6709
+import Geodesy.Model.Ops.Tmerc
+import Geodesy.Model.Ops.Btmerc
+import Geodesy.Model.Ops.Laea
+import Geodesy.Model.Ops.Somerc
+import Geodesy.Model.Ops.Cart
+import Geodesy.Model.Ops.Lcc
 
 namespace Geodesy
 open Text
@@ -27,11 +39,28 @@ def builtin (ce : Ops.CtorEnv) (name : Str) : Option (Ctor R) :=
   else if name == S "unitconvert" then some (Ops.Unitconvert.new R ce)
   else if name == S "merc" then some (Ops.Merc.new R ce)
   else if name == S "webmerc" then some (Ops.Webmerc.new R ce)
+  else if name == S "omerc" then some (Ops.Omerc.new R ce)
+  else if name == S "geodesic" then some (Ops.Geodesic.new R ce)
+  else if name == S "latitude" then some (Ops.Latitude.new R ce)
+  else if name == S "curvature" then some (Ops.Curvature.new R ce)
+  else if name == S "gravity" then some (Ops.Gravity.new R ce)
+  else if name == S "dm" then some (Ops.Iso6709.dmNew R ce)
+  else if name == S "dms" then some (Ops.Iso6709.dmsNew R ce)
+  else if name == S "tmerc" then some (Ops.Tmerc.new R ce)
+  else if name == S "utm" then some (Ops.Tmerc.utmNew R ce)
+  else if name == S "btmerc" then some (Ops.Btmerc.new R ce)
+  else if name == S "butm" then some (Ops.Btmerc.utmNew R ce)
+  else if name == S "laea" then some (Ops.Laea.new R ce)
+  else if name == S "somerc" then some (Ops.Somerc.new R ce)
+  else if name == S "cart" then some (Ops.Cart.new R ce)
+  else if name == S "molodensky" then some (Ops.Molodensky.new R ce)
+  else if name == S "permtide" then some (Ops.Permtide.new R ce)
+  else if name == S "lcc" then some (Ops.Lcc.new R ce)
   else none
 
 /-- names of the built-ins the model covers (besides `pipeline`) -/
 def modelled : List String :=
-  ["addone", "noop", "longlat", "latlon", "latlong", "lonlat", "stack", "push", "pop", "axisswap", "helmert", "adapt", "unitconvert", "merc", "webmerc"]
+  ["addone", "noop", "longlat", "latlon", "latlong", "lonlat", "stack", "push", "pop", "axisswap", "helmert", "adapt", "unitconvert", "merc", "webmerc", "omerc", "geodesic", "latitude", "curvature", "gravity", "dm", "dms", "tmerc", "utm", "btmerc", "butm", "laea", "somerc", "cart", "molodensky", "permtide", "lcc"]
 
 /-- leaf semantics by constructor tag -/
 def sem : LeafSem R := fun t params dir data =>
@@ -43,6 +72,21 @@ def sem : LeafSem R := fun t params dir data =>
   else if t == S "unitconvert" then Ops.Unitconvert.sem params dir data
   else if t == S "merc" then Ops.Merc.sem params dir data
   else if t == S "webmerc" then Ops.Webmerc.sem params dir data
+  else if t == S "omerc" then Ops.Omerc.sem params dir data
+  else if t == S "geodesic" then Ops.Geodesic.sem params dir data
+  else if t == S "latitude" then Ops.Latitude.sem params dir data
+  else if t == S "curvature" then Ops.Curvature.sem params dir data
+  else if t == S "gravity" then Ops.Gravity.sem params dir data
+  else if t == S "dm" then Ops.Iso6709.dmSem params dir data
+  else if t == S "dms" then Ops.Iso6709.dmsSem params dir data
+  else if t == S "tmerc" then Ops.Tmerc.sem params dir data
+  else if t == S "btmerc" then Ops.Btmerc.sem params dir data
+  else if t == S "laea" then Ops.Laea.sem params dir data
+  else if t == S "somerc" then Ops.Somerc.sem params dir data
+  else if t == S "cart" then Ops.Cart.sem params dir data
+  else if t == S "molodensky" then Ops.Molodensky.sem params dir data
+  else if t == S "permtide" then Ops.Permtide.sem params dir data
+  else if t == S "lcc" then Ops.Lcc.sem params dir data
   else if t == S "stack" || t == S "push" || t == S "pop" then Ops.placeholderSem data
   else (data, 0)
 
